@@ -103,5 +103,59 @@ struct Parser {
   }
 };
 
+/** monitor of one own (active) exchange, written from the statement of C02: after the echo of the arbitration address
+ * the remaining master bytes are sent escaped, then the CRC of the escaped sequence (escaped itself), one repetition
+ * after a NAK, ACK/NAK of the slave response by its CRC (one re-read), final SYN. The symbols on the wire during an own
+ * exchange form a telegram like any other, so the passive recogniser tracks them; this overlay adds who is sending. */
+struct Sender {
+  Parser p;
+  bool arb;       // own arbitration address was written directly after the SYN, its echo is awaited
+  bool own;       // arbitration won: the telegram on the wire is ours
+  bool endSyn;    // the exchange was ended by us and the closing SYN is due
+  uint8_t M[REF_MAXL];  // master part of the request (unescaped), M[4] = NN
+  // outcome of the last event
+  bool done, ok, mayEndSyn, lost;
+  Sender() : arb(false), own(false), endSyn(false), done(false), ok(false), mayEndSyn(false), lost(false) {}
+  /** the symbol the sender has to put on the wire next, if any */
+  bool expectWrite(uint8_t* w) const {
+    if (endSyn) { *w = 0xAA; return true; }
+    if (!own) return false;
+    uint8_t u;
+    switch (p.ph) {
+      case Parser::QQ: u = M[0]; break;  // repetition after NAK starts with the source address again
+      case Parser::ZZ: case Parser::PB: case Parser::SB: case Parser::NN: case Parser::DATA: u = M[p.mlen < REF_MAXL ? p.mlen : 0]; break;
+      case Parser::CRC: u = p.crc; break;
+      case Parser::RESACK: *w = p.crcOk ? 0x00 : 0xFF; return true;
+      default: return false;
+    }
+    if (p.esc) *w = u == 0xA9 ? 0x00 : 0x01;
+    else if (u == 0xA9 || u == 0xAA) *w = 0xA9;
+    else *w = u;
+    return true;
+  }
+  void fault() {
+    done = own; ok = false; mayEndSyn = false; lost = arb;
+    own = arb = endSyn = false;
+    p.fault();
+  }
+  /** one symbol read from the wire; wrote/w: the symbol this side wrote just before (its echo is expected) */
+  void sym(bool wrote, uint8_t w, uint8_t raw) {
+    done = ok = mayEndSyn = lost = false;
+    if (endSyn) { endSyn = false; p.sym(raw); return; }
+    if (arb) {
+      arb = false;
+      p.sym(raw);
+      if (raw == M[0]) own = true; else lost = true;
+      return;
+    }
+    if (!own) { p.sym(raw); return; }
+    if (raw == 0xAA) { p.sym(raw); own = false; done = true; return; }                      // truncated by SYN
+    if (wrote && raw != w) { p.reported = false; p.drop(); own = false; done = true; return; }  // echo mismatch: silent until SYN
+    p.sym(raw);
+    if (p.reported) { own = false; done = true; ok = true; endSyn = true; return; }
+    if (p.ph == Parser::IDLE) { own = false; done = true; mayEndSyn = true; }                // protocol-level failure
+  }
+};
+
 }  // namespace ref
 #endif
